@@ -50,6 +50,24 @@ Definition layout_eqb (a b : layout) : bool :=
   opt_eqb point_eqb (l_origin a) (l_origin b) && opt_eqb stretch_eqb (l_extent a) (l_extent b)
   && opt_eqb padding_eqb (l_padding a) (l_padding b) && opt_eqb alignment_eqb (l_alignment a) (l_alignment b).
 
+(* ---- any two operands: `other and type(self) == type(other) and ...` ------------------------
+   GOther stands for None and for any object of another type (both make every geometry __eq__ falsy);
+   every geometry object except an all-empty Layout is truthy, and Layout.__eq__ has no `other and`. *)
+Inductive gval :=
+| GOther | GSize (a : size) | GPoint (a : point) | GStretch (a : stretch) | GPadding (a : padding)
+| GAlign (a : alignment) | GLayout (a : layout).
+
+Definition gval_eqb (a b : gval) : bool :=
+  match a, b with
+  | GSize x, GSize y => size_eqb x y
+  | GPoint x, GPoint y => point_eqb x y
+  | GStretch x, GStretch y => stretch_eqb x y
+  | GPadding x, GPadding y => padding_eqb x y
+  | GAlign x, GAlign y => alignment_eqb x y
+  | GLayout x, GLayout y => layout_eqb x y
+  | _, _ => false
+  end.
+
 (* ---- __hash__ : CPython's hash on floats / enum members / None / ints is abstract ---- *)
 Section Hash.
   Variable hq : Q -> Z.            (* hash(float) *)
@@ -59,7 +77,9 @@ Section Hash.
   Variable hnone : Z.              (* hash(None) *)
   Variable hint : Z -> Z.          (* hash(int) *)
 
-  Definition size_hash (a : size) : Z := hint (hq (s_val a) * 41 + hu (s_unit a) * 43 + 47).
+  (* hq is applied to the canonical representative of the rational: the float the code holds is one value,
+     Coq's Q has many representations of it *)
+  Definition size_hash (a : size) : Z := hint (hq (Qred (s_val a)) * 41 + hu (s_unit a) * 43 + 47).
   Definition point_hash (a : point) : Z := hint (size_hash (p_x a) * 51 + size_hash (p_y a) * 53 + 57).
   Definition stretch_hash (a : stretch) : Z := hint (size_hash (st_h a) * 59 + size_hash (st_v a) * 61 + 67).
   Definition padding_hash (a : padding) : Z :=
@@ -70,6 +90,11 @@ Section Hash.
   Definition layout_hash (a : layout) : Z :=
     hint (opt_hash point_hash (l_origin a) * 7 + opt_hash stretch_hash (l_extent a) * 11
           + opt_hash padding_hash (l_padding a) * 13 + opt_hash alignment_hash (l_alignment a) * 5 + 17).
+  Definition gval_hash (a : gval) : Z :=
+    match a with
+    | GOther => hnone | GSize x => size_hash x | GPoint x => point_hash x | GStretch x => stretch_hash x
+    | GPadding x => padding_hash x | GAlign x => alignment_hash x | GLayout x => layout_hash x
+    end.
 End Hash.
 
 (* ---- Size.from_string --------------------------------------------------------------- *)
@@ -102,27 +127,34 @@ Definition decimal_value (ip fp : str) : option Q :=
       end
   end.
 
-Definition size_from_string (s0 : str) : result size :=
-  let s := chop_final_newline s0 in
+(* "(\.\d+)?" at the start of r1: (fraction digits, rest); when it does not match, stay before the dot *)
+Definition frac_split (r1 : str) : str * str :=
+  match r1 with
+  | c :: t => if c =? 46 then
+                match take_while is_digit t with
+                | [] => ([], r1)
+                | fp => (fp, drop_while is_digit t)
+                end
+              else ([], r1)
+  | [] => ([], r1)
+  end.
+
+(* the pattern between ^ and $ *)
+Definition size_parse_core (s : str) : result size :=
   if str_eqb s (lit "0") then Ok (mkSize 0%Q PX) else
   let ip := take_while is_digit s in
   let r1 := drop_while is_digit s in
   match ip with
   | [] => Err ESyntax
   | _ =>
-    let '(fp, r2) :=
-        match r1 with
-        | 46 :: t => match take_while is_digit t with
-                     | [] => ([], r1)           (* "(\.\d+)?" does not match: stay before the dot *)
-                     | fp => (fp, drop_while is_digit t)
-                     end
-        | _ => ([], r1)
-        end in
+    let '(fp, r2) := frac_split r1 in
     match unit_of_suffix r2, decimal_value ip fp with
     | Some u, Some v => Ok (mkSize v u)
     | _, _ => Err ESyntax
     end
   end.
+
+Definition size_from_string (s0 : str) : result size := size_parse_core (chop_final_newline s0).
 
 (* ---- Size.__str__ --------------------------------------------------------------------- *)
 Definition unit_str (u : unit_) : str :=
